@@ -250,7 +250,7 @@ PROPS = {
             {"unit": "c04", "variant": "asan-clang", "tiers": ["thorough"],
              "env": {"ASAN_OPTIONS": "handle_segv=0:handle_sigbus=0:allow_user_segv_handler=1:detect_leaks=0", "UBSAN_OPTIONS": "print_stacktrace=0"}},
             {"unit": "c04", "tiers": ["thorough"], "wrap": ["valgrind", "-q", "--error-exitcode=0"], "tag": "valgrind",
-             "archs": ["sse2", "ssse3", "sse4_2", "avx", "avx2", "fma3_avx2", "emu128"], "args": ["--scale", "0.3"]},
+             "archs": ["sse2", "ssse3", "sse4_2", "avx", "avx2", "fma3_avx2", "emu128"], "args": ["--scale", "0.3"], "env": {"VH_EXACT_HEAP": "1"}},
         ],
         "rule": "each evaluation = one lane/element transferred by one load/store/gather/scatter/constructor call under the guard-page + canary monitor; placements: flush against "
                 "the upper / lower PROT_NONE page, 1..7 bytes from either, every byte offset (unaligned forms) or every multiple of the architecture alignment (aligned forms) in an "
